@@ -284,10 +284,21 @@ def rule_b(chk, prog):
                 if isinstance(v, ast.Constant) and v.value == 0:
                     chk.ok("C03.b", where, text, "literal 0")
                     continue
-                bund = any(re.search(r"bunds\b", norm(tst), re.I) and l is True and not norm(tst).endswith("== False") for tst, l in deps) or \
-                    any(re.search(r"bunds\b.*== False$", norm(tst), re.I) and l is False for tst, l in deps)
+                # every path to the store passes an edge on which the bund switch is known to be on
+                on_edges = set()
+                for tn in cfg.live_nodes():
+                    if tn.kind != "test":
+                        continue
+                    tt = norm(tn.ast)
+                    if re.search(r"bunds$", tt, re.I) and not isinstance(tn.ast, ast.Compare):
+                        on_edges.add((tn.id, True))
+                    elif re.search(r"bunds == False$", tt, re.I):
+                        on_edges.add((tn.id, False))
+                    elif re.search(r"bunds == True$", tt, re.I) or re.search(r"bunds is True$", tt, re.I):
+                        on_edges.add((tn.id, True))
+                bund = bool(on_edges) and not cfg.reachable_without_edges(nid, on_edges)
                 if bund:
-                    chk.ok("C03.b", where, text, "only when bunds are present")
+                    chk.ok("C03.b", where, text, "only when bunds are present (on every path)")
                     continue
                 # a value returned by a callee that itself satisfies the rule (infiltration / soil_evaporation results)
                 if isinstance(node, ast.Assign) and isinstance(node.value, ast.Call) and prog.resolve_call(fi, node.value) is not None:
